@@ -88,6 +88,19 @@ Theorem C04_truncation_only_at_open :
 Proof. exact disk_only_grows. Qed.
 Print Assumptions C04_truncation_only_at_open.
 
+(* Several writers on one path, all with O_APPEND (append-mode appenders alive at
+   the same time, e.g. old and new appender around a reconfiguration, and
+   external `>>` writers): after any history of calls the file is the initial
+   content followed by everything written, in call order - nothing that reached
+   the file after an appender was opened is ever overwritten by it. *)
+Theorem C04_shared_file_history :
+  forall c ops m,
+    orc_ok (morc m) = true -> (forall h, mbufs m h = []) ->
+    mdisk (hops c m ops) = mdisk m ++ concat (map hop_bytes ops)
+    /\ (forall h, mbufs (hops c m ops) h = []).
+Proof. exact shared_file_history. Qed.
+Print Assumptions C04_shared_file_history.
+
 (* The atomic-block reduction, generic in the shared state and its actions:
    after EVERY schedule the shared state is the sequential execution of the
    completed blocks in lock-acquisition order (+ a prefix of the holder's block),
@@ -222,6 +235,14 @@ Example C04_example_open :
   /\ fa_open false (Some [1;2]%N) [] = Some (mkF [] [] [])
   /\ fa_open true None [] = Some (mkF [] [] []).
 Proof. vm_compute. repeat split; reflexivity. Qed.
+
+(* old and new appender alive on one path, an external writer in between *)
+Example C04_example_two_handles :
+  mdisk (hops 4 (mkM [9%N] (fun _ => []) [])
+              [HBuild 0; HAppend 0 [[1]]%N; HBuild 1; HAppend 1 [[2;3]]%N; HExternal [7%N];
+               HAppend 0 [[4;5;6;7;8]]%N; HAppend 1 [[0]]%N])
+  = [9;1;2;3;7;4;5;6;7;8;0]%N.
+Proof. vm_compute. reflexivity. Qed.
 
 Example C04_example_trace :
   check_trace [7%N] [[[1;2];[3]]; [[4;5]]]%N [7;4;5;1;2;3]%N = Some [1;0;0]
